@@ -72,6 +72,8 @@ JudgeStream(e) ==
   IF ~NoDup(e.seq) \/ \E i \in 1..Len(e.seq) : e.seq[i] \notin 1..e.n THEN "StreamOnce"
   ELSE IF e.senderrs = 0 /\ e.lossy = FALSE /\ Len(e.seq) # e.n THEN "StreamOnce"
   ELSE IF ~Increasing(e.seq) THEN "PairFifo"
+  \* after a cut link had time to be re-dialled everything flows again: the second batch (40 messages) arrives completely and in order
+  ELSE IF e.lossy /\ (Len(e.after) # 40 \/ ~Increasing(e.after)) THEN "AfterRedial"
   ELSE ""
 
 \* ---- remote event subscribers (C18 "from another node") -------------------------------
